@@ -415,7 +415,9 @@ func fixedC14(r *Rec, tier string, shard, nshards int) []*Case {
 			mk   func(n int) string
 			ns   []int
 		}{
-			{"style_space_run_in_shorthand", func(n int) string { return `<p style="font: a` + rep(" ", n) + `a; margin: 1` + rep(" ", n) + `1">x</p>` }, []int{1000, 100000, 1000000}},
+			{"style_space_run_in_shorthand", func(n int) string {
+				return `<p style="font: a` + rep(" ", n) + `a; margin: 1` + rep(" ", n) + `1">x</p>`
+			}, []int{1000, 100000, 1000000}},
 			{"style_unterminated_url_run", func(n int) string { return `<p style="background: ` + rep("url(", n) + `">x</p>` }, []int{100, 500, 2000}},
 		} {
 			for _, n := range fam.ns {
